@@ -196,7 +196,12 @@ def trr_cases(draw):
     n = draw(st.integers(1, 20))
     nf = draw(st.integers(1, 5))
     frames = [{"x": [draw(VAL) for _ in range(3 * n)], "v": [draw(VAL) for _ in range(3 * n)], "box": [draw(st.floats(1, 30).map(lambda x: round(x, 5))) if i in (0, 4, 8) else 0.0 for i in range(9)]} for _ in range(nf)]
-    return {"n": n, "frames": frames, "k": draw(st.integers(0, nf - 1)), "with_v": draw(st.booleans()), "with_f": draw(st.booleans())}
+    c = {"n": n, "frames": frames, "k": draw(st.integers(0, nf - 1)), "with_v": draw(st.booleans()), "with_f": draw(st.booleans())}
+    if nf >= 2 and draw(st.booleans()):
+        # velocities / forces written at other intervals than positions (nstvout, nstfout != nstxout): frames of different size
+        c["v_on"] = [draw(st.booleans()) for _ in range(nf)]
+        c["f_on"] = [draw(st.booleans()) for _ in range(nf)]
+    return c
 
 
 def body_trr(rec, c):
@@ -205,15 +210,20 @@ def body_trr(rec, c):
     d = isolate.mkscratch("trr_")
     try:
         n, k = c["n"], c["k"]
-        rec.case(key=c, nontrivial=len(c["frames"]) >= 2, classes=["trr", f"trr:frames={len(c['frames'])}"])
+        v_on = c.get("v_on") or [c["with_v"]] * len(c["frames"])
+        f_on = c.get("f_on") or [c["with_f"]] * len(c["frames"])
+        mixed = len(set(zip(v_on, f_on))) > 1
+        rec.case(key=c, nontrivial=len(c["frames"]) >= 2, sample={"natoms": n, "frames": len(c["frames"]), "k": k, "velocities_in_frame": v_on, "forces_in_frame": f_on} if mixed and len(rec.samples) < 1 else None,
+                 classes=["trr", f"trr:frames={len(c['frames'])}"] + (["trr:frames-of-different-size"] if mixed else [])
+                 + (["trr:frames-of-different-size-before-frame-k"] if len(set(zip(v_on[: k + 1], f_on[: k + 1]))) > 1 else []))
         decoded = {}
         for endian in (">", "<"):
             for double in (False, True):
                 path = os.path.join(d, f"t_{'b' if endian == '>' else 'l'}_{'d' if double else 's'}.trr")
                 with open(path, "wb") as fh:
                     for i, f in enumerate(c["frames"]):
-                        raw, _ = trrref.encode_frame(n, i, 0.002 * i, 0.0, box=f["box"], x=f["x"], v=f["v"] if c["with_v"] else None,
-                                                     f=f["x"] if c["with_f"] else None, endian=endian, double=double)
+                        raw, _ = trrref.encode_frame(n, i, 0.002 * i, 0.0, box=f["box"], x=f["x"], v=f["v"] if v_on[i] else None,
+                                                     f=f["x"] if f_on[i] else None, endian=endian, double=double)
                         fh.write(raw)
                 try:
                     header, data = read_trr_frame(path, k)
@@ -223,7 +233,7 @@ def body_trr(rec, c):
                 fr = c["frames"][k]
                 want_x = np.array(trrref.as_stored(fr["x"], endian, double)).reshape(n, 3)
                 rec.check(np.array_equal(data["x"], want_x), "trr:positions", f"endian={endian} double={double} k={k}")
-                if c["with_v"]:
+                if v_on[k]:
                     rec.check(np.array_equal(data["v"], np.array(trrref.as_stored(fr["v"], endian, double)).reshape(n, 3)), "trr:velocities", f"endian={endian} double={double}")
                 else:
                     rec.check("v" not in data, "trr:velocities-invented")
@@ -235,7 +245,7 @@ def body_trr(rec, c):
             a, b = decoded[(">", double)], decoded[("<", double)]
             rec.check(all(np.array_equal(a[key], b[key]) for key in a), "trr:byte-orders-decode-differently", f"double={double}")
         # engine: frame k of a trr -> g96
-        if c["with_v"]:
+        if v_on[k]:
             eng = GromacsEngine.__new__(GromacsEngine)
             eng.ext = "g96"
             lab = [f"{1:>5d} {'RES':<5s} {'A':<5s}{i + 1:>7d}" for i in range(n)]
@@ -339,6 +349,11 @@ def tree_st(draw, depth=0):
         if k not in seen:
             seen.add(k)
             data.append(f"{k} {draw(st.sampled_from(['1', '0.5', 'MD', 'x y z']))}")
+    if draw(st.integers(0, 3)) == 0:
+        # keywords that CP2K allows several times in one section (LIST in FIXED_ATOMS, BASIS_SET_FILE_NAME in DFT, ...)
+        rk = draw(st.sampled_from(["LIST", "BASIS_SET_FILE_NAME"]))
+        for i in range(draw(st.integers(2, 3))):
+            data.insert(draw(st.integers(0, len(data))), f"{rk} {'abc'[i]}{i + 1}")
     children = []
     if depth < 3:
         titles = set()
@@ -490,7 +505,8 @@ def body_cp2k(rec, c):
         with open(src, "w") as fh:
             fh.write("\n".join(tree_text(r) for r in c["roots"]))
         kinds = sum(1 for r in c["roots"] for p, nd in paths_of(r) if nd["title"] == "KIND")
-        rec.case(key=c, nontrivial=bool(c["update"]) and (kinds >= 2 or bool(c["remove"])), classes=["cp2k", f"cp2k:updates={len(c['update'])}", "cp2k:repeated-KIND" if kinds >= 2 else "cp2k:no-repeats"])
+        rec.case(key=c, nontrivial=bool(c["update"]) and (kinds >= 2 or bool(c["remove"])), classes=["cp2k", f"cp2k:updates={len(c['update'])}", "cp2k:repeated-KIND" if kinds >= 2 else "cp2k:no-repeats"]
+                 + (["cp2k:section-with-repeated-keyword"] if any(sum(1 for dl in nd["data"] if dl.split()[0] in ("LIST", "BASIS_SET_FILE_NAME")) >= 2 for r in c["roots"] for _, nd in paths_of(r)) else []))
         try:
             update_cp2k_input(src, o1, update=c["update"], remove=c["remove"])
             update_cp2k_input(o1, o2, update=c["update"], remove=c["remove"])
